@@ -368,6 +368,7 @@ func init() {
 		defer s.Close(dir, "genesis")
 		monUTF8(s)
 		monC08ExportAtSequenceEnd(s)
+		monC08AppExport(s)
 		monAolGenesisConsistency(s, "c01")
 		monAolGenesisConsistency(s, "c13")
 		seen, sigs := map[string]bool{}, map[string]bool{}
